@@ -19,6 +19,12 @@ from ..harness import Harness
 from ..engine import Query
 import z3
 
+# FINDINGS
+#  fixed  /repo 7602ce6 "fix: idle handshake only counts valid logical-idle symbols"
+#         idle_detected ignored sink.valid (a cycle without valid whose stale data happened to be zero counted as four idle
+#         symbols) and the reset value 0 of last_word counted as a received idle word.  Caught by `complete_needs_8_idle`
+#         (free valid, and in the valid=1 layer for the reset-value case).
+
 PROP = "C44"
 ENCODED = [
     "luna/gateware/usb/usb3/link/idle.py: IdleHandshakeHandler.elaborate (idle_detected, seen_idle, enable_counter, "
